@@ -520,6 +520,20 @@ def c04(ctx):
     ctx.extra["unit_kinds"] = len(names)
     ctx.exhaustive = False
     run_mod(ctx, vh, reqs, "dec", shards=8 if ctx.tier == "thorough" else 4)
+    # the same unit streams through Cli::process_byte: effect on the line and on dispatch
+    scripts = []
+    sid = 1
+    pool = [s for s in seqs if s] + [[rng.choice(names) for _ in range(rng.randint(3, 30))] for _ in range(300 if ctx.tier == "quick" else 8000)]
+    if ctx.tier == "quick":
+        pool = rng.sample(pool, min(len(pool), 1200))
+    for s in pool:
+        b = []
+        for n in s:
+            b += units[n]
+        scripts.append({"sid": sid, "cfg": {"cmd": rng.choice([2, 8, 32]), "hcap": rng.choice([0, 16]), "set": "raw", "prompt": 0},
+                        "steps": [{"ev": "byte", "b": x} for x in b] + [{"ev": "byte", "b": 13}]})
+        sid += 1
+    validate_cli(ctx, vh, scripts, "C04", "c04", shards=12)
     return ctx.finish("closed state graph of Decoder over 46 boundary bytes: every (state, byte) transition replayed on "
                       "InputGenerator via its shortest path; all sequences of <= %d key units over %d unit kinds; random unit "
                       "and byte streams; every record validated by TLC against Decoder!Feed (distinct = TLC distinct states)" % (maxlen, len(names)))
@@ -670,6 +684,22 @@ def c07(ctx):
     ctx.exhaustive = True
     ctx.extra["exhaustive_domain"] = "all lines of length <= %d over {a, space, quote, backslash, dash, e-acute}" % maxlen
     run_mod(ctx, vh, reqs, "tokens", shards=12)
+    # the same rules through the real Cli: the handler must receive exactly the tokens of the line typed
+    scripts = []
+    sid = 1
+    cli_lines = [render(l) for l in lists[: (400 if q else 6000)]]
+    for _ in range(600 if q else 12000):
+        n = rng.randint(1, 24)
+        cli_lines.append([rng.choice(TOK_ALPHA + TOK_ALPHA + [0x62, 0x4E2D]) for _ in range(n)])
+    for ln in cli_lines:
+        steps = [{"ev": "byte", "b": b} for b in utf8s(ln)]
+        # a few edits at the end of the line, so that the line submitted is not simply the line typed
+        if rng.random() < 0.3:
+            steps += [{"ev": "byte", "b": 8}] * rng.randint(1, 2)
+        steps.append({"ev": "byte", "b": 13})
+        scripts.append({"sid": sid, "cfg": {"cmd": 64, "hcap": rng.choice([0, 16]), "set": "raw", "prompt": 0}, "steps": steps})
+        sid += 1
+    validate_cli(ctx, vh, scripts, "C07", "c07", shards=12)
     return ctx.finish("every line of length <= %d over 6 symbols through the real Tokens::new, each record validated by TLC "
                       "against Tokenizer!TokenizeSet; rendered lists (round trip) and random long lines; spec-level round-trip "
                       "law model-checked" % maxlen)
@@ -720,6 +750,24 @@ def c08(ctx):
     ctx.exhaustive = True
     ctx.extra["exhaustive_domain"] = "all token lists of length <= %d over the 12 tokens of C08's alphabet" % maxlen
     run_mod(ctx, vh, reqs, "args", shards=8)
+    # through the real Cli: every token quoted by Render, the handler's classified arguments validated by TLC
+    scripts = []
+    sid = 1
+    lists = []
+    for a in ARG_TOKENS:
+        for b in ARG_TOKENS:
+            lists.append([a, b])
+            if not q:
+                for c in ARG_TOKENS:
+                    lists.append([a, b, c])
+    for _ in range(300 if q else 6000):
+        lists.append([rng.choice(ARG_TOKENS + [[45] + [rng.choice(ALLCH) for _ in range(rng.randint(1, 5))]]) for _ in range(rng.randint(1, 6))])
+    for toks in lists:
+        line = render([[0x63]] + toks)
+        steps = [{"ev": "byte", "b": b} for b in utf8s(line)] + [{"ev": "byte", "b": 13}]
+        scripts.append({"sid": sid, "cfg": {"cmd": 128, "hcap": 0, "set": "raw", "prompt": 0}, "steps": steps})
+        sid += 1
+    validate_cli(ctx, vh, scripts, "C08", "c08", shards=12)
     return ctx.finish("every token list of length <= %d over 12 tokens through the real ArgList/ArgsIter, each record validated "
                       "by TLC against Args!Classify and the Rejoin law; random lists with long mixed-width clusters" % maxlen)
 
@@ -756,6 +804,28 @@ def c17(ctx):
     if ctx.exhaustive:
         ctx.extra["exhaustive_domain"] = "all 1,112,032 scalar values >= U+0020 (utility functions); U+007F included there"
     run_mod(ctx, vh, reqs, "scalar", shards=16, max_viol=3)
+    # every scalar through the real Cli: typed between neighbours of other lengths, echoed, moved over,
+    # deleted, retyped, submitted inside the command name, inside a value and as a short option, recalled
+    if ctx.tier == "quick":
+        cps = set()
+        for c in [0x20, 0x7F, 0x80, 0x7FF, 0x800, 0xD7FF, 0xE000, 0xFFFF, 0x10000, 0x10FFFF]:
+            cps.update(range(max(0x20, c - 4), min(0x110000, c + 5)))
+        cps.update(rng.randrange(0x20, 0x110000) for _ in range(500))
+    else:
+        cps = set(range(0x20, 0x110000, 41)) | set(range(0x20, 0x900)) | set(range(0xD700, 0xE100)) | set(range(0xFF00, 0x10100)) | set(range(0x10FF00, 0x110000))
+    cps = sorted(c for c in cps if c != 0x7F and not (0xD800 <= c <= 0xDFFF))
+    neigh = [0x61, 0xE9, 0x4E2D, 0x1F600]
+    scripts = []
+    L, R, BS = sessions.KEY_BYTES["left"], sessions.KEY_BYTES["right"], [8]
+    for i, cp in enumerate(cps):
+        a, b = neigh[i % 4], neigh[(i // 4 + 1) % 4]
+        x = utf8(cp)
+        bs = utf8(a) + x + utf8(b) + L + L + R + L + BS * 0 + R + BS + x      # move over it, delete it, retype it
+        bs += [32] + x + x + [32, 45] + (x if cp not in (0x68, 0x2D, 0x20) else [0x76]) + [32, 0x22] + utf8(a) + x + [0x22]
+        bs += [13] + sessions.KEY_BYTES["up"] + [13]
+        scripts.append({"sid": i + 1, "cfg": {"cmd": 64, "hcap": 64, "set": "raw", "prompt": 0}, "steps": [{"ev": "byte", "b": v} for v in bs]})
+    ctx.extra["scalars_through_cli"] = len(cps)
+    validate_cli(ctx, vh, scripts, "C17", "c17", shards=14)
     return ctx.finish("one record per scalar value with the library's encode_utf8, char_count, char_byte_index, char_pop_front "
                       "and common_prefix_len applied to it between neighbours of other encoded lengths, validated by TLC against "
                       "Utf8's operators; quick: +-16 around every length boundary and the surrogate gap plus a seeded sample")
@@ -833,10 +903,25 @@ def c02(ctx):
         reqs.append({"m": "dec", "bytes": [rng.choice([rng.randrange(256), rng.randrange(128, 256), rng.choice(special)]) for _ in range(rng.randint(1, 40))]})
         reqs.append({"m": "accum", "bytes": [rng.choice([rng.randrange(32, 256), rng.randrange(128, 256), rng.choice(special[7:])]) for _ in range(rng.randint(1, 40))]})
     run_mod(ctx, vh, reqs, "dec", shards=8)
+    # CLI level: arbitrary byte streams (malformed, overlong, surrogate, out of range, truncated, mixed with
+    # keys) through process_byte; every string handed out or echoed must be well-formed, octets that do not
+    # complete a scalar change nothing and well-formed characters that follow are accepted
+    prof = {"cmd": [1, 2, 3, 4, 5, 8, 16, 64], "hcap": [0, 3, 8, 16, 64], "sets": ALLSETS, "steps": (20, 120),
+            "alphabet": ALLCH, "enter_forms": ENTER_FORMS,
+            "w": {"rawbyte": 50, "char": 25, "bs": 5, "left": 5, "right": 3, "up": 6, "down": 3, "tab": 4, "enter": 8, "word": 5, "ctl": 3, "csi": 2}}
+    scripts = sessions.gen_sessions(rng, 500 if ctx.tier == "quick" else 20000, prof)
+    # bias raw bytes towards the interesting ones
+    for sc in scripts:
+        for st in sc["steps"]:
+            if st["ev"] == "byte" and st["b"] >= 0x80 and rng.random() < 0.5:
+                st["b"] = rng.choice(special[7:])
+    validate_cli(ctx, vh, scripts, "C02", "c02", shards=12)
     return ctx.finish("decoder level: TLC computes the emission pattern of every class sequence of <= 4 bytes >= 0x80 (14 classes, "
                       "class-invariance asserted on lowest/highest/alternating representatives); the real Utf8Accum is fed the "
                       "concrete sequences and must show exactly that pattern, return exactly the octets consumed, and satisfy "
-                      "core::str::from_utf8; plus the closed decoder graph over 46 boundary bytes and random byte streams validated by TLC")
+                      "core::str::from_utf8; plus the closed decoder graph over 46 boundary bytes and random byte streams validated by TLC; "
+                      "CLI level: random streams over all 256 byte values through process_byte, every line, history entry, handler "
+                      "string and echoed byte sequence checked well-formed by TLC, and the effect of every byte on the line checked")
 
 
 # ---------------------------------------------------------------------------------------
@@ -851,7 +936,7 @@ SIZES_HIST = [0, 1, 2, 3, 5, 9, 16, 33, 64]
 ALLSETS = ["leds", "mixed", "raw", "grouped", "tiny", "wide"]
 
 
-def cli_property(ctx, focus, mc_consts, mc_limit, profiles, rule, shards=12):
+def cli_property(ctx, focus, mc_consts, mc_limit, profiles, rule, shards=12, extra_scripts=None):
     vh = vlib.build_harness()
     rng = random.Random(ctx.seed)
     scripts = []
@@ -864,6 +949,8 @@ def cli_property(ctx, focus, mc_consts, mc_limit, profiles, rule, shards=12):
         sc = sessions.gen_sessions(rng, n, prof, sid0=sid)
         scripts += sc
         sid += n
+    if extra_scripts:
+        scripts += extra_scripts
     validate_cli(ctx, vh, scripts, focus, focus.lower(), shards=shards)
     ctx.extra["sessions"] = len(scripts)
     return ctx.finish(rule)
@@ -897,12 +984,62 @@ def c06(ctx):
     return cli_property(ctx, "C06",
                         [dict(SMALL, WithApi=True)] if q else [dict(MED, WithApi=True)],
                         2500 if q else 200000,
-                        [(700 if q else 20000, prof), (300 if q else 10000, tight)],
+                        [(700 if q else 20000, prof), (300 if q else 10000, tight)], extra_scripts=systematic_api(ctx, "c06"),
+                        rule="Cli::write / set_prompt inserted at every position of a set of short key sequences (systematic); "
                         "MC_Cli with write / set_prompt / handler prompt changes interleaved at every point (design level: the "
                         "modelled output protocol keeps Terminal in Sync in every reachable state); its transitions replayed on the "
                         "real Cli, plus random sessions over width-1 characters of every UTF-8 length and six prompts; after every "
                         "call TLC feeds the bytes actually emitted to the ECMA-48 Terminal model and requires row = prompt + line, "
                         "cursor column = prompt + cursor")
+
+
+def systematic_api(ctx, kind):
+    """kind = "c13": every chunking of texts over {x, LF, CR LF, empty} into <= 2 (thorough 3) calls of the three
+    writer methods, through a handler and through Cli::write, at every cursor position of a short line.
+    kind = "c06": Cli::write / set_prompt inserted at every position of short key sequences."""
+    rng = random.Random(ctx.seed + 13)
+    q = ctx.tier == "quick"
+    T = sessions.text_bytes
+    scripts = []
+    sid = 700001
+    if kind == "c13":
+        pieces = ["x", "\n", "\r\n", ""]
+        texts = [a + b for a in pieces for b in pieces] + pieces
+        methods = ["w", "wl", "f"]
+        chunkings = [[(m, t)] for m in methods for t in texts]
+        chunkings += [[(m1, t1), (m2, t2)] for m1 in methods for m2 in methods for t1 in pieces + ["x\n"] for t2 in pieces + ["y"]]
+        if not q:
+            chunkings += [[(m1, t1), (m2, t2), (m3, t3)] for m1 in methods for m2 in ["w", "wl"] for m3 in ["w", "u"]
+                          for t1 in pieces for t2 in pieces for t3 in pieces]
+        elif len(chunkings) > 250:
+            chunkings = rng.sample(chunkings, 250)
+        line = "ab é"
+        for ch in chunkings:
+            chunks = [{"m": m, "t": T(t)} for m, t in ch]
+            for back in ([0, 2] if q else range(0, len(line) + 1)):
+                typed = [{"ev": "byte", "b": b} for b in line.encode()]
+                for _ in range(back):
+                    typed += [{"ev": "byte", "b": b} for b in sessions.KEY_BYTES["left"]]
+                scripts.append({"sid": sid, "cfg": {"cmd": 16, "hcap": 8, "set": "raw", "prompt": rng.choice([0, 2])},
+                                "steps": typed + [{"ev": "write", "chunks": chunks}, {"ev": "byte", "b": 122},
+                                                  {"ev": "byte", "b": 13, "hs": {"chunks": chunks}}, {"ev": "write", "chunks": chunks}]})
+                sid += 1
+    else:
+        bases = [["a", "b", "<left>", "c"], ["é", "<left>", "x", "<bs>"], ["a", "<enter>", "<up>", "<left>", "b"],
+                 ["g", "<tab>", "<left>", "<left>"], ["a", "b", "c", "<left>", "<left>", "<bs>", "<right>"],
+                 ["x", "<enter>", "y", "<enter>", "<up>", "<up>", "<down>"], [" ", "h", "<tab>", "<enter>"]]
+        for base in bases:
+            for pos in range(0, len(base) + 1):
+                for api in ({"ev": "write", "chunks": [{"m": "w", "t": T("note")}]}, {"ev": "write", "chunks": []},
+                            {"ev": "write", "chunks": [{"m": "wl", "t": T("two\nrows")}]},
+                            {"ev": "prompt", "p": 2}, {"ev": "prompt", "p": 1}, {"ev": "prompt", "p": 4}):
+                    for cmd in ([3, 16] if q else [1, 2, 3, 4, 16]):
+                        items = base[:pos] + [api] + base[pos:] + ["w", "<left>", api, "z"]
+                        scripts.append({"sid": sid, "cfg": {"cmd": cmd, "hcap": 8, "set": "leds", "prompt": rng.choice([0, 1, 2])},
+                                        "steps": scen(items, {"chunks": [{"m": "w", "t": T("out")}], "p": 3})})
+                        sid += 1
+    ctx.extra["systematic_sessions"] = len(scripts)
+    return scripts
 
 
 @check("C13")
@@ -915,7 +1052,9 @@ def c13(ctx):
     return cli_property(ctx, "C13",
                         [dict(SMALL, WithApi=True)] if q else [dict(MED, WithApi=True)],
                         2000 if q else 100000,
-                        [(1000 if q else 30000, prof)],
+                        [(1000 if q else 30000, prof)], extra_scripts=systematic_api(ctx, "c13"),
+                        rule="every chunking of texts over {x, LF, CR LF, empty} into <= 2 (thorough 3) calls of write_str / writeln_str / "
+                        "formatted writes, through a handler and through Cli::write, at cursor positions of a short line; plus "
                         "handler output and Cli::write with random chunkings (<= 3 calls of write_str / writeln_str / ufmt / "
                         "core::fmt, texts over {x, LF, CR LF, empty}) at random points of sessions and at every point of the MC_Cli "
                         "graphs; TLC checks bytes between handler begin/end = Conv(text), rows shown = row before + Lines(text), "
@@ -937,6 +1076,49 @@ def c15(ctx):
                         "last flush in the recorded sink operations")
 
 
+def c11_systematic(ctx):
+    """Per name set: every line `blanks* prefix blanks*` for every prefix of every name (plus a non-matching
+    word and a two-word line), every cursor position, every amount of room from 0 to the longest continuation
+    + 2 (the command buffer is sized to give exactly that room)."""
+    rng = random.Random(ctx.seed + 11)
+    q = ctx.tier == "quick"
+    scripts = []
+    sid = 500001
+    for set_id in ALLSETS:
+        names = sessions.SETS[set_id] + ["help"]
+        words = set()
+        for n in names:
+            for k in range(1, len(n) + 1):
+                words.add(n[:k])
+        words.update(["zz", "g x"])
+        cases = []
+        for w in sorted(words):
+            conts = [len(n[len(w):].encode()) for n in names if n.startswith(w)]
+            maxc = max(conts) if conts else 0
+            for lead in (0, 1):
+                for trail in (0, 1, 2):
+                    line = " " * lead + w + " " * trail
+                    for back in range(0, len(line) + 1):
+                        for room in range(0, maxc + 3):
+                            cases.append((line, back, room, lead, w))
+        if q:
+            cases = rng.sample(cases, min(len(cases), 500))
+        elif len(cases) > 25000:
+            cases = rng.sample(cases, 25000)
+        for line, back, room, lead, w in cases:
+            req_len = len((" " * lead + w).encode())
+            cmd = max(req_len + room, len(line.encode()))
+            steps = [{"ev": "byte", "b": b} for b in line.encode()]
+            for _ in range(back):
+                steps += [{"ev": "byte", "b": b} for b in sessions.KEY_BYTES["left"]]
+            steps.append({"ev": "byte", "b": 9})
+            steps.append({"ev": "byte", "b": 9})
+            scripts.append({"sid": sid, "cfg": {"cmd": cmd, "hcap": 0, "set": set_id, "prompt": rng.choice([0, 1])}, "steps": steps})
+            sid += 1
+    ctx.extra["systematic_tab_cases"] = len(scripts)
+    return scripts
+
+
 @check("C11")
 def c11(ctx):
     q = ctx.tier == "quick"
@@ -948,8 +1130,9 @@ def c11(ctx):
     return cli_property(ctx, "C11",
                         [dict(SMALL, WithApi=False)] if q else [dict(MED, WithApi=False), dict(BIG, WithApi=False)],
                         1500 if q else 100000,
-                        [(1500 if q else 40000, prof)],
-                        "Tab pressed at random cursor positions of lines built from prefixes of command names and blanks, over five "
+                        [(1500 if q else 40000, prof)], extra_scripts=c11_systematic(ctx),
+                        rule="per name set every line blanks* prefix blanks* for every prefix of every name x every cursor position x "
+                        "every amount of room (systematic; quick: a seeded sample); Tab pressed at random cursor positions of lines built from prefixes of command names and blanks, over five "
                         "command sets (shared prefixes non-adjacent in declaration order, one name a prefix of another, multi-byte "
                         "names differing in the last octet, groups with a hidden member, names interacting with `help`) in buffers "
                         "leaving every amount of room; every Tab validated by TLC against Autocomplete!Complete over the SET of names")
